@@ -336,3 +336,168 @@ Proof.
   { induction l as [|p r IHl]; intros s0; cbn [fold_left]; [reflexivity|]. rewrite IHl, unregister_length. apply stop_actor_length. }
   rewrite H, aupd_length. exact Hi.
 Qed.
+
+(* ---- the runner thread's poll (sync engine, thread-managed children) ---- *)
+Lemma reap_fold_never_revives : forall l s x,
+  a_running (aget (fold_left (fun s' i => if orphaned s' i then stop ASync i s' else s') l s) x) = true -> a_running (aget s x) = true.
+Proof.
+  induction l as [|i r IH]; intros s x H; cbn [fold_left] in H; [exact H|].
+  apply IH in H. destruct (orphaned s i); [eapply stop_never_revives; exact H|exact H].
+Qed.
+
+(* the poll never starts anybody *)
+Theorem reap_never_revives eng s x : a_running (aget (reap_orphans eng s) x) = true -> a_running (aget s x) = true.
+Proof. destruct eng; [apply reap_fold_never_revives|exact (fun H => H)]. Qed.
+
+(* the async engine has no runner threads *)
+Theorem reap_async_noop s : reap_orphans AAsync s = s.
+Proof. reflexivity. Qed.
+
+(* where every thread-managed child still is its parent's entry, the poll changes nothing *)
+Theorem reap_without_orphans_noop eng s : (forall i, orphaned s i = false) -> reap_orphans eng s = s.
+Proof.
+  intros H. destruct eng; [|reflexivity]. unfold reap_orphans.
+  generalize (seq 0 (List.length (actors s))). induction l as [|i r IH]; cbn [fold_left]; [reflexivity|].
+  rewrite H. exact IH.
+Qed.
+
+Theorem runner_polls_never_revives eng t s x :
+  a_running (aget (runner_polls eng t s) x) = true -> a_running (aget s x) = true.
+Proof.
+  unfold runner_polls. destruct eng; [|exact (fun H => H)].
+  destruct (existsb _ _ && _); [|exact (fun H => H)].
+  destruct (_ || _); [change (aget (note_tie ?z) x) with (aget z x)|]; apply reap_never_revives.
+Qed.
+
+(* only a running, thread-managed child whose parent's entry is not this child is touched: with nobody orphaned, or on
+   the async engine, or when the clock does not move, the poll is the identity *)
+Theorem runner_polls_noop eng t s :
+  (eng = AAsync \/ t <= now s \/ forall i, orphaned s i = false) -> runner_polls eng t s = s.
+Proof.
+  intros H. unfold runner_polls. destruct eng; [|reflexivity].
+  destruct H as [H|[H|H]]; [discriminate| |].
+  - replace (Nat.ltb (now s) t) with false by (symmetry; apply Nat.ltb_ge; exact H). now rewrite andb_false_r.
+  - replace (existsb (orphaned s) _) with false; [reflexivity|].
+    symmetry. destruct (existsb (orphaned s) _) eqn:E; [|reflexivity].
+    apply existsb_exists in E. destruct E as [i [_ Hi]]. rewrite H in Hi. discriminate.
+Qed.
+
+Lemma list_upd_beyond {A} (l : list A) i f : List.length l <= i -> list_upd l i f = l.
+Proof. revert i; induction l as [|x r IH]; intros [|i] H; simpl in *; try reflexivity; try lia. f_equal. apply IH. lia. Qed.
+
+Lemma aget_aupd_cases s i g p :
+  aget (aupd s i g) p = if Nat.eqb p i && Nat.ltb i (List.length (actors s)) then g (aget s i) else aget s p.
+Proof.
+  destruct (Nat.eqb_spec p i) as [->|Hne]; simpl.
+  - destruct (Nat.ltb_spec i (List.length (actors s))) as [Hl|Hl].
+    + apply aget_aupd_same. exact Hl.
+    + unfold aget, aupd. simpl. now rewrite list_upd_beyond by exact Hl.
+  - apply aget_aupd_other. congruence.
+Qed.
+
+Lemma dget_ddel_some {V} (l : list (string * V)) k' k v : dget (ddel l k') k = Some v -> dget l k = Some v.
+Proof.
+  unfold dget, ddel. induction l as [|[a b] r IH]; simpl; [discriminate|].
+  destruct (String.eqb_spec a k') as [->|Hak']; simpl.
+  - destruct (String.eqb_spec k' k) as [->|Hk]; simpl.
+    + intros H. exfalso. clear IH.
+      destruct (find _ (filter _ r)) as [q|] eqn:E; [|discriminate].
+      apply find_some in E. destruct E as [Hin Hq]. apply filter_In in Hin. destruct Hin as [_ Hn].
+      rewrite Hq in Hn. discriminate.
+    + exact IH.
+  - destruct (String.eqb a k); simpl; [exact (fun H => H)|exact IH].
+Qed.
+
+Definition same_static (a b : actor) : Prop := a_id a = a_id b /\ a_parent a = a_parent b /\ a_threaded a = a_threaded b.
+Lemma same_static_refl a : same_static a a. Proof. repeat split. Qed.
+Lemma same_static_trans a b c : same_static a b -> same_static b c -> same_static a c.
+Proof. unfold same_static. intuition congruence. Qed.
+
+Lemma aget_aupd_static s j g x : (forall a, same_static (g a) a) -> same_static (aget (aupd s j g) x) (aget s x).
+Proof. intros Hg. rewrite aget_aupd_cases. destruct (_ && _) eqn:E; [|apply same_static_refl].
+  apply andb_true_iff in E. destruct E as [E _]. apply Nat.eqb_eq in E. subst. apply Hg. Qed.
+
+(* what a children map says after a stop it already said before: stop only ever removes entries *)
+Definition kids_shrink (s' s : sys) : Prop :=
+  forall p k j, dget (a_children (aget s' p)) k = Some j -> dget (a_children (aget s p)) k = Some j.
+Definition static_same (s' s : sys) : Prop := forall x, same_static (aget s' x) (aget s x).
+
+Lemma stop_finish_shrink eng i z : kids_shrink (stop_finish eng i z) z /\ static_same (stop_finish eng i z) z.
+Proof.
+  unfold stop_finish.
+  set (s3 := aupd z i _). set (s4 := with_pending_sends _ _ s3).
+  assert (H4 : kids_shrink s4 z /\ static_same s4 z).
+  { split.
+    - intros p k j. change (aget s4 p) with (aget s3 p). unfold s3. rewrite aget_aupd_cases.
+      destruct (_ && _); [|exact (fun H => H)]. destruct eng; simpl; discriminate.
+    - intros x. change (aget s4 x) with (aget s3 x). unfold s3. apply aget_aupd_static. intros a. destruct eng; repeat split. }
+  destruct eng; try exact H4.
+  destruct (a_threaded (aget s4 i)); try exact H4.
+  destruct (a_parent (aget s4 i)) as [p0|]; try exact H4.
+  destruct (dget _ _) as [j0|]; try exact H4.
+  destruct (Nat.eqb j0 i); try exact H4.
+  destruct H4 as [Hk Hs]. split.
+  - intros p k j. rewrite aget_aupd_cases. destruct (_ && _) eqn:E.
+    + apply andb_true_iff in E. destruct E as [E _]. apply Nat.eqb_eq in E. subst p0. simpl. intros H. apply dget_ddel_some in H. apply Hk. exact H.
+    + apply Hk.
+  - intros x. eapply same_static_trans; [apply aget_aupd_static; intros a; repeat split|apply Hs].
+Qed.
+
+Lemma stop_actor_shrink : forall fuel eng i s, kids_shrink (stop_actor fuel eng i s) s /\ static_same (stop_actor fuel eng i s) s.
+Proof.
+  induction fuel as [|f IH]; intros eng i s; simpl.
+  - split; [intros p k j H; exact H|intros x; apply same_static_refl].
+  - destruct (a_running (aget s i)); simpl; [|split; [intros p k j H; exact H|intros x; apply same_static_refl]].
+    set (s1 := aupd s i _).
+    assert (H1 : kids_shrink s1 s /\ static_same s1 s).
+    { split.
+      - intros p k j. unfold s1. rewrite aget_aupd_cases. destruct (_ && _) eqn:E; [|exact (fun H => H)].
+        apply andb_true_iff in E. destruct E as [E _]. apply Nat.eqb_eq in E. subst p. simpl. exact (fun H => H).
+      - intros x. unfold s1. apply aget_aupd_static. intros a. repeat split. }
+    assert (H2 : forall l s0, kids_shrink (fold_left (fun s' (p : string * nat) => unregister (snd p) (stop_actor f eng (snd p) s')) l s0) s0
+                              /\ static_same (fold_left (fun s' (p : string * nat) => unregister (snd p) (stop_actor f eng (snd p) s')) l s0) s0).
+    { induction l as [|q r IHl]; intros s0; cbn [fold_left].
+      - split; [intros p k j H; exact H|intros x; apply same_static_refl].
+      - destruct (IHl (unregister (snd q) (stop_actor f eng (snd q) s0))) as [Ha Hb]. destruct (IH eng (snd q) s0) as [Hc Hd]. split.
+        + intros p k j H. apply Ha in H. change (aget (unregister ?a ?z) p) with (aget z p) in H. apply Hc. exact H.
+        + intros x. eapply same_static_trans; [apply Hb|]. change (aget (unregister ?a ?z) x) with (aget z x). apply Hd. }
+    destruct (stop_finish_shrink eng i (fold_left (fun s' (p : string * nat) => unregister (snd p) (stop_actor f eng (snd p) s')) (a_children (aget s1 i)) s1)) as [Ha Hb].
+    destruct (H2 (a_children (aget s1 i)) s1) as [Hc Hd]. destruct H1 as [He Hf]. split.
+    + intros p k j H. apply He, Hc, Ha. exact H.
+    + intros x. eapply same_static_trans; [apply Hb|]. eapply same_static_trans; [apply Hd|apply Hf].
+Qed.
+
+(* a child that is orphaned and still running after somebody else's stop is still orphaned *)
+Lemma orphaned_survives_stop h s i :
+  orphaned s i = true -> a_running (aget (stop ASync h s) i) = true -> orphaned (stop ASync h s) i = true.
+Proof.
+  unfold stop. set (s' := stop_actor _ ASync h s). intros Ho Hr.
+  destruct (stop_actor_shrink (S (List.length (actors s))) ASync h s) as [Hk Hs]. fold s' in Hk, Hs.
+  unfold orphaned in *. rewrite Hr. destruct (Hs i) as [Hid [Hp Ht]]. rewrite Ht, Hp, Hid.
+  apply andb_true_iff in Ho. destruct Ho as [Ho1 Ho]. apply andb_true_iff in Ho1. destruct Ho1 as [_ Ho1]. rewrite Ho1. simpl.
+  destruct (a_parent (aget s i)) as [p|]; [|exact Ho].
+  destruct (dget (a_children (aget s' p)) _) as [j|] eqn:E; [|reflexivity].
+  apply Hk in E. rewrite E in Ho. exact Ho.
+Qed.
+
+Lemma reap_fold_stops_orphan i : forall l s,
+  In i l -> i < List.length (actors s) -> orphaned s i = true ->
+  a_running (aget (fold_left (fun s' x => if orphaned s' x then stop ASync x s' else s') l s) i) = false.
+Proof.
+  induction l as [|h r IH]; intros s Hin Hl Ho; [destruct Hin|]. cbn [fold_left].
+  destruct Hin as [->|Hin].
+  - rewrite Ho.
+    destruct (a_running (aget (fold_left _ r _) i)) eqn:E; [|reflexivity].
+    apply reap_fold_never_revives in E. rewrite stop_stops in E by exact Hl. discriminate.
+  - destruct (orphaned s h) eqn:Eh; [|apply IH; assumption].
+    destruct (a_running (aget (stop ASync h s) i)) eqn:Er.
+    + apply IH; [exact Hin| |apply orphaned_survives_stop; assumption].
+      unfold stop. rewrite stop_actor_length. exact Hl.
+    + destruct (a_running (aget (fold_left _ r _) i)) eqn:E; [|reflexivity].
+      apply reap_fold_never_revives in E. congruence.
+Qed.
+
+(* the poll stops every orphaned thread-managed child *)
+Theorem reap_stops_orphans s i :
+  i < List.length (actors s) -> orphaned s i = true -> a_running (aget (reap_orphans ASync s) i) = false.
+Proof. intros Hl Ho. unfold reap_orphans. apply reap_fold_stops_orphan; [apply in_seq; lia|exact Hl|exact Ho]. Qed.
